@@ -141,6 +141,19 @@ def main(pid, tier, seed):
         meta[tid] = {'password': pw, 'kind': 'fragments', 'raised': raised, 'history': k % len(histories),
                      'final': [(len(x['t']), x['k'], x['n']) for x in tr['snaps'][-1]['sl']]}
 
+    # ---- the shared special training lists: every password parsed under the multi-word history of its own list ----
+    from . import lists as _lists
+    for sname, (pws_, sopt) in sorted(_lists.special_lists().items()):
+        rec3 = segment.Recorder(pws_)
+        for pw in sorted(set(pws_)):
+            if not pw or len(pw) > 21:
+                continue
+            tid += 1
+            tr, raised = rec3.parse(pw, tid)
+            traces.append(tr)
+            meta[tid] = {'password': pw, 'kind': 'special list ' + sname, 'raised': raised,
+                         'final': [(len(x['t']), x['k'], x['n']) for x in tr['snaps'][-1]['sl']]}
+
     # ---- the multi-word detector itself (MultiWord.tla): train / parse against the model, both directions ----
     from . import multiword
     mw_cov = multiword.stage(tier, random.Random(seed * 7919 + 13), verdict)
